@@ -6,37 +6,39 @@ import props
 root = os.path.dirname(os.path.dirname(os.path.abspath(__file__)))
 
 TEXT = {
- "C01": ("Verus discharges the property-derived postcondition (result == overflowing(floor(a*b/2^f)) resp. trunc(a*2^f/b)) of the real mul_overflow/div_overflow bodies for all operands and a symbolic frac_nbits; Kani confirms the 8-bit instantiation bit-precisely and yields counterexamples",
-         "assume_specification prelude for primitive integer methods; rewrite rules R1-R12; 128-bit paths not yet under contract (listed in evidence.not_covered)"),
- "C02": ("Verus proves every checked/saturating/wrapping/overflowing form of neg/abs/add/sub/mul_int/div_int of all ten families against one exact result R and the four policy specs; mul/div rest on the helper contracts of C01; Kani twins confirm the public forms on 8-bit layouts",
-         "prelude specs of core integer methods (trusted, listed); signed `/` `%` axiom; mul/div wrapper forms verified by Kani on 8-bit layouts only"),
- "C03": ("Verus proves fixed_cmp_fixed (all six operators) for all 100 family pairs with both Frac symbolic against the exact ordering, on top of the to_fixed_helper contract; Kani function contracts on to_fixed_helper and to_float_kind (all inputs x all 507 layouts, symbolic layout) plus loop-free full-domain harnesses of the comparison macro bodies on all pairs of 8-bit layouts, cross-width samples, all integer types, f32/f64 against the exact ordering",
-         "integer and float comparison macro bodies are proved for the instantiated type pairs only (Kani); to_fixed_helper contract is assumed in Verus and discharged by Kani; oracles in machine integers written from the property"),
- "C04": ("Verus proves `impl FromFixed` (all five forms) for the ten destination families with symbolic Frac, generic over every source type, and the typenum bounds of 371 From/LossyFrom impls; Kani function contracts on to_fixed_helper (all layouts) and loop-free full-domain harnesses of the conversion policies on all pairs of 8-bit layouts, 10 integer types, cross-width samples, From/LossyFrom instances",
-         "to_fixed_helper contract assumed in Verus, discharged by Kani; integer conversions (impl_int!) and From/LossyFrom bodies verified by Kani on instantiated pairs only"),
- "C05": ("Kani function contracts: from_to_float_helper equals an independent IEEE-754 RNE encoder bit for bit, and to_float_kind equals the exact rounding of the decoded float, for every f32/f64 bit pattern and every layout (symbolic)",
-         "IEEE-754 format definition in the oracle; per-family policy glue harness pending"),
- "C06": ("Verus proves the mask constants, int, frac, round_to_zero and all 20 rounding forms of all ten families with a symbolic Frac against floor/ceil/round/ties-even/to-zero over unbounded integers; every contracted function has a rejected `ensures false` twin",
-         "no-frac callee contracts assumed here and proved in unit nofrac; PartialEq<Bits> contract assumed (Kani cmp8 for 8 bit); bit_vector bridge lemmas are proved, not assumed"),
- "C07": ("Verus proves %, checked_rem, checked_rem_euclid, rem_euclid for all ten families; Kani proves the integer-divisor and Euclidean-division forms on 8-bit layouts outside the region of the recorded finding F-C07-div-euclid",
-         "div_euclid family: known finding (region carved out, witness replayed each run); _int forms 8-bit only"),
- "C08": ("BOUNDED (level other): Kani runs the real parsers on every byte string up to a stated length (9 bytes; 6/8 for decimal), every radix and all nine 8-bit layouts symbolic, against the exactly rounded literal, the overflow/wrap policy and an independent grammar; complete within the bound, never counted as proof",
+ "C01": ("Verus discharges the property-derived postcondition (result == overflowing(floor(a*b/2^f)) resp. trunc(a*2^f/b)) of the real mul_overflow/div_overflow bodies for all operands and a symbolic frac_nbits at every width: widening bodies (8..64 bit), the four-limb 128-bit multiply, the 128-bit division on top of the fully proved wide_div.rs (Knuth-D step, normalisation, signed wrapper); Kani confirms the 8-bit instantiation bit-precisely and yields counterexamples",
+         "assume_specification prelude for primitive integer methods (trusted, listed); one admitted axiom for signed `/` `%`; leading_zeros of u128 uninterpreted with its defining axiom; rewrite rules R1-R14 (DESIGN.md §11.1)"),
+ "C02": ("Verus proves every checked/saturating/wrapping/overflowing form of neg/abs/add/sub/mul/div/mul_int/div_int (and the plain operators) of all ten families against one exact result R and the four policy specs, with a symbolic Frac; mul/div rest on the helper contracts proved under C01; Kani twins confirm the public forms on 8-bit layouts",
+         "prelude specs of core integer methods (trusted, listed); signed `/` `%` axiom"),
+ "C03": ("Verus proves all six comparison operators against the exact ordering of the values, with every Frac symbolic: fixed/fixed for all 100 family pairs, fixed/float and float/fixed (f32, f64) for the ten families, fixed/integer and integer/fixed for the ten families x twelve integer types; Kani function contracts on to_fixed_helper and to_float_kind (all inputs x all layouts, symbolic layout) carry the helper contracts the Verus units assume, plus loop-free full-domain harnesses on all pairs of 8-bit layouts",
+         "to_fixed_helper / to_float_kind contracts are assumed in Verus and discharged by Kani; the float ordering is stated through the float's correctly rounded grid value and rounding direction (the content of the Kani contract)"),
+ "C04": ("Verus proves, with symbolic Frac: `impl FromFixed` (five policies) for the ten destination families generic over every source type; ToFixed/FromFixed of the twelve integer types and bool, ToFixed of the ten families, from_num/to_num and their policies (generic over the other side); the typenum bounds of 371 From/LossyFrom impls and the bodies of 260 of them (re-homed, R6+R11); Kani function contracts on to_fixed_helper (all layouts) and full-domain harnesses on 8-bit layouts",
+         "to_fixed_helper contract assumed in Verus, discharged by Kani; the remaining From/LossyFrom bodies (`into()` delegations, floats, bool, identity) by Kani instances; lossless primitive `From` conversions not specified by vstd are an axiom (listed)"),
+ "C05": ("Kani function contracts: from_to_float_helper equals an independent IEEE-754 RNE encoder bit for bit, and to_float_kind equals the exact rounding of the decoded float, for every f32/f64 bit pattern and every layout (symbolic).  Verus proves the policy glue on top of them for every fixed-point type: the Sealed float helpers of the ten families and `impl ToFixed/FromFixed for f32/f64` generic over F",
+         "IEEE-754 format definition in the Kani oracle; the Verus units see a float through uninterpreted abstraction functions whose meaning is the Kani contract"),
+ "C06": ("Verus proves the mask constants, int, frac, round_to_zero and all 20 rounding forms of all ten families with a symbolic Frac against floor/ceil/round/ties-even/to-zero over unbounded integers; every contracted function has a rejected vacuity twin",
+         "no-frac callee contracts assumed here and proved in unit nofrac; bit_vector bridge lemmas are proved, not assumed"),
+ "C07": ("Verus proves %, checked_rem, checked_rem_euclid, rem_euclid for all ten families, and for a primitive-integer divisor checked_rem_int, `fixed % integer`, wrapping/overflowing_rem_int, overflowing/wrapping/plain rem_euclid_int (signed: bit-level proof at every width); Kani proves the Euclidean-division forms on 8-bit layouts outside the region of the recorded finding F-C07-div-euclid",
+         "div_euclid family: known finding (region carved out, witness replayed each run), Kani 8-bit only; signed checked_rem_euclid_int (closure in Option::map) Kani 8-bit only"),
+ "C08": ("BOUNDED (level other): Kani runs the real parsers on every byte string up to a stated length (9 bytes; 6/8 for decimal), every radix and all nine 8-bit layouts symbolic, against the exactly rounded literal, the overflow/wrap policy and an independent grammar; complete within the bound, never counted as proof.  Verus proves leaf functions only (Mul10, mul_hi_lo)",
          "bound on string length and width (8-bit types); Kani's model of Rust; two genuine defects found this way were fixed (known_findings.json)"),
- "C09": ("BOUNDED (level other): Kani runs the real formatters on every 8-bit value x all nine layouts: default output correctly rounded and round-trip safe, {:.p} (p <= 9) exactly rounded, flags only pad/prefix, radix-2^k outputs exact",
+ "C09": ("BOUNDED (level other): Kani runs the real formatters on every 8-bit value x all nine layouts: default output correctly rounded and round-trip safe, {:.p} (p <= 9) exactly rounded, flags and width (also together with a precision) only pad/prefix, radix-2^k outputs exact",
          "8-bit layouts, precision <= 9, from_utf8 stubbed; the early-trim defect found this way was fixed (known_findings.json)"),
  "C11": ("Both back ends verify under the checking semantics (overflow checks, shift checks, debug assertions of the dev-profile expansion); this check owns the panic-class obligations of all Verus units and of the listed Kani harnesses: when every such site is discharged under the function's precondition, no check can fire and the unchecked build computes the same value",
          "only functions under contract are covered; evidence.public_fn_coverage lists the public functions under Verus contract, exercised by Kani only, and not covered"),
- "C12": ("Verus verifies sqrt, exp, pow, powi, ln, log2 as written, generic over all supported (S, D), against trait-level contracts (no panic-class obligation left; conventions as postconditions); Kani proves sin/cos/tan/sqrt/log2/ln/exp total on I9F23 (whole domain) and sin/cos/exp on wider types for the stated ranges",
-         "trait-level contracts and three conversion/comparison axioms assumed (listed); Kani results are per instantiated type"),
- "C17": ("Kani asserts the hook iteration counter <= 4*width+64 after every call (whole domain on I9F23, stated ranges / whole domain for sin on I32F32 in thorough); the generic Verus unit has only `for` loops over ranges bounded by frac_nbits() <= 128",
-         "counter hook lines in transcendental.rs (guarded); per-type results; the sin range-reduction defect was fixed"),
+ "C12": ("Verus verifies sqrt, exp, pow, powi, ln, log2, sin, cos as written, generic over all supported types, against trait-level contracts (no panic-class obligation left; conventions as postconditions); Kani proves sin/cos/tan/sqrt/log2/ln/exp total on I9F23 (whole domain) and sin/cos/exp on wider types for the stated ranges",
+         "trait-level contracts and conversion/comparison axioms assumed (listed); log2_inner and cordic_rotation (iterator adapters) and tan: Kani per instantiated type"),
+ "C17": ("Verus: a ghost iteration counter (R14) in sqrt, exp and sin, generic over every supported type, with `assert(vticks <= 4*w+64)` at every exit and `decreases bound - vticks` on while/loop; Kani asserts the hook iteration counter <= 4*width+64 after every call (whole domain on I9F23, I32F32 in thorough)",
+         "counter hook lines in transcendental.rs (guarded); log2_inner / cordic_rotation counted by Kani per type only; the sin range-reduction defect was fixed"),
  "C10": ("Kani runs the real parity-scale-codec derive for one alias per family over all bit patterns: encode == to_le_bytes == encoding of the bits, max_encoded_len, decode round trip, short input fails, byte views inverse",
          "the derive does not mention Frac (one alias per family); memcpy-sized loops closed by unwinding assertions; serde not built"),
- "C18": ("Kani proves every Wrapping<F> operator/method on six 8-bit layouts equal to the exact result modulo 2^8 and to the wrapping_* form of F (shift amounts of all integer types, assigning and by-reference forms, sum/product folds up to 3 elements)",
-         "generic code instantiated at 8-bit layouts only; Verus generic proof pending"),
+ "C18": ("Verus, generic over F: every operator impl and inherent method of Wrapping<F> (226 functions, incl. 288 shift impls with the amount reduced modulo the width) against trait-level contracts of Fixed; per family: the `impl Fixed` forwarders meet those contracts, the integer-rhs impls, and shifts / bit operators of F with mathematical postconditions; Kani proves the same operators end to end on 8-bit layouts, plus sum/product folds and parsing forwarders",
+         "Sum/Product, from_str* forwarders and next_power_of_two: Kani 8-bit only; #[repr(transparent)] layout axiom; uninterpreted (deterministic-only) contracts for bit counting / rotate / wrapping_div_euclid*"),
 }
 NA = {
+ "C13": "the 4-ulp bound needs a quantitative Newton-convergence proof over the reals' integer shadow for every layout; with the fixed trip count it does not even hold for wide-integer layouts (DESIGN.md §11.3/§11.5), and no contract within reach separates the layouts where it holds; the decidable by-products (result >= 0, Err only for negative operands, l >= sqrt(x) invariant) are proved under C12",
  "C14": "oracle is log2/ln of a real number: no contract in Verus (no real analysis) or CBMC can express it (DESIGN.md §6)",
+ "C15": "the accuracy clauses need e^x and x^y over the reals (not expressible in either back end); the decidable conventions 0^y = 0, x^0 = 1, x^1 = x of pow / powi are postconditions proved under C12; the (|n|+1)-ulp clause of powi was not brought under contract",
  "C16": "oracle is sin/cos/tan of a real number: not expressible in either back end (DESIGN.md §6)",
 }
 WIP = "check not built yet in this revision (work in progress, see DESIGN.md §10)"
@@ -48,7 +50,7 @@ for pid in all_ids:
         backends = ("Verus" if spec.get("verus_units") else "") + (" + " if spec.get("verus_units") and spec.get("kani") else "") + ("Kani" if spec.get("kani") or spec.get("kani_thorough") else "")
         checks.append({"property_id": pid, "quick_cmd": "./check %s --tier quick" % pid, "thorough_cmd": "./check %s --tier thorough" % pid,
                        "evidence_file": "evidence/%s.json" % pid, "replay_cmd_template": "./check replay {path}", "engine": "contracts",
-                       "level_claimed": {"category": spec["level"], "text": TEXT[pid][0], "design_ref": "DESIGN.md §5 " + pid},
+                       "level_claimed": {"category": spec["level"], "text": TEXT[pid][0], "design_ref": "DESIGN.md §11 (and §5 " + pid + ")"},
                        "level_note": TEXT[pid][1],
                        "technique": "contract-based deductive verification of the real code (%s)" % backends})
 na = [{"property_id": p, "reason": NA.get(p, WIP)} for p in all_ids if p not in [c["property_id"] for c in checks]]
